@@ -976,7 +976,12 @@ impl Callbacks for Cb {
                             if fi > 0 {
                                 o.push(',');
                             }
-                            let fty = tcx.type_of(f.did).instantiate_identity().skip_norm_wip();
+                            let fty0 = tcx.type_of(f.did).instantiate_identity().skip_norm_wip();
+                            let fty = if tcx.generics_of(did).count() == 0 {
+                                tcx.try_normalize_erasing_regions(TypingEnv::fully_monomorphized(), rustc_middle::ty::Unnormalized::new_wip(fty0)).unwrap_or(fty0)
+                            } else {
+                                fty0
+                            };
                             let _ = write!(
                                 o,
                                 "{{\"n\":{},\"ty\":{},\"tj\":{},\"pub\":{}}}",
